@@ -47,10 +47,11 @@ def _frame_plus_is_burst(E, env):
 
 contract(
     'bycycle.burst.cycle.detect_bursts_cycles',
-    params={'df_features': ('frame', {f: 'xr' for f in FEATS}, 1),
+    params={'df_features': ('frame', {f: 'xr' for f in FEATS}),
             **{t: 'real' for t in THRS}, 'min_n_cycles': INT},
-    requires=["len(df_features) >= 1"],
-    raises={'ValueError': " or ".join("%s < 0 or %s > 1" % (t, t) for t in THRS) + " or min_n_cycles < 0"},
+    requires=[],
+    raises={'ValueError': " or ".join("%s < 0 or %s > 1" % (t, t) for t in THRS) +
+                          " or (len(df_features) > 0 and min_n_cycles < 0)"},
     ensures=[
         "result is df_features",
         "len(result) == len(old(df_features))",
@@ -101,38 +102,49 @@ def _facts(P):
 def _after_transitions(P):
     E, env, b, d, tr, n, g, cnt, t, bz, bp = _facts(P)
     i, j, k = z3.Ints('pi pj pk')
+    key = [kk for kk in E.st.ghost.get('cmap_axioms', {}) if kk[1] == tr.meta['nonzero_of'].ident][0]
+    P.register('AX', E.st.ghost['cmap_axioms'][key])           # assumed contract of np.flatnonzero (counting function)
     # parity: the number of transitions before position i is even exactly when the (padded) array is False at i-1
-    P.induct('parity', lambda x: (cnt(x) % 2 == 0) == z3.Not(bp(x - 1)), z3.IntVal(0), n + 1)
-    P.have('parity-at-end', (cnt(n + 1) % 2 == 0) == z3.Not(bp(n)))
-    P.have('t-even', t % 2 == 0)
+    P.induct('parity', lambda x: (cnt(x) % 2 == 0) == z3.Not(bp(x - 1)), z3.IntVal(0), n + 1, using=['AX'])
+    P.have('parity-at-end', (cnt(n + 1) % 2 == 0) == z3.Not(bp(n)), using=['parity'])
+    P.have('t-even', t % 2 == 0, using=['parity-at-end', 'AX'])
     # cnt is monotone
-    P.induct('mono', lambda x: z3.ForAll([i], z3.Implies(z3.And(0 <= i, i <= x), cnt(i) <= cnt(x))), z3.IntVal(0), n + 1)
-    P.have('cnt-after-g', z3.ForAll([k], z3.Implies(z3.And(0 <= k, k < t), cnt(g(k) + 1) == k + 1), patterns=[g(k)]))
-    P.have('cnt-le-t', z3.ForAll([i], z3.Implies(z3.And(0 <= i, i <= n + 1), z3.And(0 <= cnt(i), cnt(i) <= t)), patterns=[cnt(i)]))
+    P.induct('mono', lambda x: z3.ForAll([i], z3.Implies(z3.And(0 <= i, i <= x), cnt(i) <= cnt(x))), z3.IntVal(0), n + 1,
+             using=['AX'])
+    P.have('mono2', z3.ForAll([i, j], z3.Implies(z3.And(0 <= i, i <= j, j <= n + 1), cnt(i) <= cnt(j)),
+                              patterns=[z3.MultiPattern(cnt(i), cnt(j))]), using=['mono'])
+    P.have('cnt-after-g', z3.ForAll([k], z3.Implies(z3.And(0 <= k, k < t), z3.And(cnt(g(k) + 1) == k + 1, cnt(g(k)) == k,
+                                                                                  0 <= g(k), g(k) <= n)),
+                                    patterns=[g(k)]), using=['AX'])
+    P.have('cnt-le-t', z3.ForAll([i], z3.Implies(z3.And(0 <= i, i <= n + 1), z3.And(0 <= cnt(i), cnt(i) <= t)),
+                                 patterns=[cnt(i)]), using=['AX', 'mono2'])
     # position of the k-th transition relative to i
     P.have('g-vs-cnt-1', z3.ForAll([k, i], z3.Implies(z3.And(0 <= k, k < t, 0 <= i, i <= n + 1, g(k) < i), k < cnt(i)),
-                                   patterns=[z3.MultiPattern(g(k), cnt(i))]))
+                                   patterns=[z3.MultiPattern(g(k), cnt(i))]), using=['mono2', 'cnt-after-g'])
     P.have('g-vs-cnt-2', z3.ForAll([k, i], z3.Implies(z3.And(0 <= k, k < t, 0 <= i, i <= n + 1, k < cnt(i)), g(k) < i),
-                                   patterns=[z3.MultiPattern(g(k), cnt(i))]))
+                                   patterns=[z3.MultiPattern(g(k), cnt(i))]), using=['mono2', 'cnt-after-g'])
     # a True position lies in the run between transitions cnt(j+1)-1 (on) and cnt(j+1) (off)
     P.have('true-odd', z3.ForAll([j], z3.Implies(z3.And(0 <= j, j < n, bz(j)),
                                                  z3.And(cnt(j + 1) % 2 == 1, 1 <= cnt(j + 1), cnt(j + 1) < t)),
-                                 patterns=[cnt(j + 1)]))
+                                 patterns=[cnt(j + 1)]), using=['parity', 't-even', 'cnt-le-t'])
     P.have('true-in-run', z3.ForAll([j], z3.Implies(z3.And(0 <= j, j < n, bz(j)),
                                                     z3.And(g(cnt(j + 1) - 1) <= j, j < g(cnt(j + 1)))),
-                                    patterns=[cnt(j + 1)]))
+                                    patterns=[cnt(j + 1)]), using=['true-odd', 'g-vs-cnt-1', 'g-vs-cnt-2'])
     # between two consecutive transitions the transition count is constant ...
     P.have('run-interior-cnt', z3.ForAll([k, j], z3.Implies(z3.And(0 <= k, k + 1 < t, g(k) <= j, j < g(k + 1)),
-                                                            z3.And(0 <= j, j <= n, cnt(j + 1) == k + 1)),
-                                         patterns=[z3.MultiPattern(g(k), cnt(j + 1))]))
+                                                            z3.And(0 <= j, j < n + 1, cnt(j + 1) == k + 1)),
+                                         patterns=[z3.MultiPattern(g(k), cnt(j + 1))]),
+           using=['g-vs-cnt-1', 'g-vs-cnt-2', 'cnt-after-g'])
     # ... so after an even transition everything up to the next transition is True
     P.have('run-interior-true', z3.ForAll([k, j], z3.Implies(z3.And(0 <= k, k + 1 < t, k % 2 == 0, g(k) <= j, j < g(k + 1)),
                                                              z3.And(j < n, bz(j))),
-                                          patterns=[z3.MultiPattern(g(k), cnt(j + 1))]))
+                                          patterns=[z3.MultiPattern(g(k), cnt(j + 1))]),
+           using=['run-interior-cnt', 'parity'])
     # runs are maximal
-    P.have('run-left-end', z3.ForAll([k], z3.Implies(z3.And(0 <= k, k < t, k % 2 == 0), z3.Not(bp(g(k) - 1))), patterns=[g(k)]))
+    P.have('run-left-end', z3.ForAll([k], z3.Implies(z3.And(0 <= k, k < t, k % 2 == 0), z3.Not(bp(g(k) - 1))), patterns=[g(k)]),
+           using=['parity', 'cnt-after-g'])
     P.have('run-right-end', z3.ForAll([k], z3.Implies(z3.And(0 <= k, k < t, k % 2 == 1), z3.And(g(k) <= n, z3.Not(bp(g(k))))),
-                                      patterns=[g(k)]))
+                                      patterns=[g(k)]), using=['parity', 'cnt-after-g'])
 
 
 def _before_return(P):
@@ -145,52 +157,74 @@ def _before_return(P):
     ons, offs, too_short = env['ons'], env['offs'], env['too_short']
     son, soff = env['_zip0'], env['_zip1']
     Q = son.n
-    cm = E.st.ghost[[k for k in E.st.ghost if isinstance(k, tuple) and k and k[0] == 'cmap' and k[1] == too_short.ident][0]]
-    mQ, G, cntG = cm
+    ckey = [kk for kk in E.st.ghost.get('cmap_axioms', {}) if kk[1] == too_short.ident][0]
+    mQ, G, cntG = E.st.ghost[ckey]
+    P.register('AXG', E.st.ghost['cmap_axioms'][ckey])          # assumed contract of boolean-mask selection
     i, j, k, p, r = z3.Ints('qi qj qk qp qr')
     old_b = lambda x: _zb(E.st.entry_heap[b.ident](x))
     cur = lambda x: _zb(E.rd(b, x))
-    ON = lambda x: _ti(E.rd(ons, x))
-    OFF = lambda x: _ti(E.rd(offs, x))
+    ON = lambda x: g(2 * x)
+    OFF = lambda x: g(2 * x + 1)
     SON = lambda x: _ti(E.rd(son, x))
     SOFF = lambda x: _ti(E.rd(soff, x))
     SHORT = lambda x: _zb(E.rd(too_short, x))
     half = t / 2
-    P.have('ons-offs-are-transitions', z3.ForAll([r], z3.Implies(z3.And(0 <= r, r < half),
-                                                                 z3.And(ON(r) == g(2 * r), OFF(r) == g(2 * r + 1)))))
-    P.have('short-def', z3.ForAll([r], z3.Implies(z3.And(0 <= r, r < half), SHORT(r) == (OFF(r) - ON(r) < m))))
+    # the loop invariant at exit (named, so that it can be used selectively)
+    facts = E.st.ghost.setdefault('facts', {})
+    P.have('short-def', z3.ForAll([r], z3.Implies(z3.And(0 <= r, r < half), SHORT(r) == (OFF(r) - ON(r) < m))),
+           using=['t-even'])
     P.have('selected-are-short', z3.ForAll([p], z3.Implies(z3.And(0 <= p, p < Q),
                                                            z3.And(0 <= G(p), G(p) < half, SHORT(G(p)), SON(p) == ON(G(p)),
-                                                                  SOFF(p) == OFF(G(p)))), patterns=[G(p)]))
+                                                                  SOFF(p) == OFF(G(p)))), patterns=[G(p)]),
+           using=['AXG', 't-even'])
     P.have('short-are-selected', z3.ForAll([r], z3.Implies(z3.And(0 <= r, r < half, SHORT(r)),
                                                            z3.And(0 <= cntG(r), cntG(r) < Q, G(cntG(r)) == r)),
-                                           patterns=[cntG(r)]))
+                                           patterns=[cntG(r)]), using=['AXG', 't-even'])
     # the run of a True position j is r(j) = (cnt(j+1) - 1) / 2
     RUN = lambda x: (cnt(x + 1) - 1) / 2
     P.have('run-of-true', z3.ForAll([j], z3.Implies(z3.And(0 <= j, j < n, old_b(j)),
-                                                    z3.And(0 <= RUN(j), RUN(j) < half, ON(RUN(j)) <= j, j < OFF(RUN(j)))),
-                                    patterns=[cnt(j + 1)]))
+                                                    z3.And(0 <= RUN(j), RUN(j) < half, 2 * RUN(j) + 1 == cnt(j + 1),
+                                                           ON(RUN(j)) <= j, j < OFF(RUN(j)))),
+                                    patterns=[cnt(j + 1)]), using=['true-odd', 'true-in-run', 't-even'])
     P.have('covering-run-is-own-run', z3.ForAll([r, j], z3.Implies(z3.And(0 <= r, r < half, ON(r) <= j, j < OFF(r)),
-                                                                   z3.And(0 <= j, j < n, old_b(j), RUN(j) == r)),
-                                                ))
+                                                                   z3.And(0 <= j, j < n, old_b(j), RUN(j) == r))),
+           using=['run-interior-cnt', 'run-interior-true', 't-even'])
+    P.register('INV', facts['loop1-exit'])
     # cleared exactly when the own run is too short
     P.have('cleared-iff-short', z3.ForAll([j], z3.Implies(z3.And(0 <= j, j < n, old_b(j)),
-                                                          cur(j) == z3.Not(SHORT(RUN(j)))), patterns=[cnt(j + 1)]))
-    P.have('false-stays-false', z3.ForAll([j], z3.Implies(z3.And(0 <= j, j < n, z3.Not(old_b(j))), z3.Not(cur(j)))))
+                                                          cur(j) == z3.Not(SHORT(RUN(j)))), patterns=[cnt(j + 1)]),
+           using=['INV', 'run-of-true', 'covering-run-is-own-run', 'selected-are-short', 'short-are-selected'])
+    P.have('false-stays-false', z3.ForAll([j], z3.Implies(z3.And(0 <= j, j < n, z3.Not(old_b(j))), z3.Not(cur(j)))),
+           using=['INV'])
     # the definition of the spec function, at this array / length / count
     B0 = E.mat(_frozen_entry(E, b))
-    E.assumptions_quant(z3.ForAll([i], MR(B0, n, m, i) == minrun_def(B0, n, m, i), patterns=[MR(B0, n, m, i)]))
+    defn = z3.ForAll([i], MR(B0, n, m, i) == minrun_def(B0, n, m, i), patterns=[MR(B0, n, m, i)])
+    E.assumptions_quant(defn)
+    P.register('DEF', [defn, E.st.ghost['mat_axioms'][B0.get_id()]])
     # long run => its own interval is the witness window
     P.have('long-run-kept', z3.ForAll([j], z3.Implies(z3.And(0 <= j, j < n, old_b(j), z3.Not(SHORT(RUN(j)))), MR(B0, n, m, j)),
-                                      patterns=[cnt(j + 1)]))
+                                      patterns=[cnt(j + 1)]),
+           using=['DEF', 'run-of-true', 'covering-run-is-own-run', 'short-def', 'cnt-after-g', 't-even'])
     # any True window around j lies inside j's run, so a window of length >= m makes the run long
     a0, c0 = z3.Ints('qa qc')
     P.have('window-inside-run', z3.ForAll([j, a0, c0], z3.Implies(
         z3.And(0 <= a0, a0 <= j, j < c0, c0 <= n, old_b(j),
                z3.ForAll([k], z3.Implies(z3.And(a0 <= k, k < c0), z3.Select(B0, k)))),
-        z3.And(ON(RUN(j)) <= a0, c0 <= OFF(RUN(j))))))
+        z3.And(ON(RUN(j)) <= a0, c0 <= OFF(RUN(j))))),
+        using=['DEF', 'run-of-true', 'run-left-end', 'run-right-end', 'cnt-after-g', 't-even'])
     P.have('kept-only-if-long', z3.ForAll([j], z3.Implies(z3.And(0 <= j, j < n, MR(B0, n, m, j)),
-                                                          z3.And(old_b(j), z3.Not(SHORT(RUN(j))))), patterns=[MR(B0, n, m, j)]))
+                                                          z3.And(old_b(j), z3.Not(SHORT(RUN(j))))), patterns=[MR(B0, n, m, j)]),
+           using=['DEF', 'window-inside-run', 'short-def', 'run-of-true'])
+    P.have('post', z3.ForAll([j], z3.Implies(z3.And(0 <= j, j < n), cur(j) == MR(B0, n, m, j))),
+           using=['cleared-iff-short', 'false-stays-false', 'long-run-kept', 'kept-only-if-long'])
+
+
+def _mentions(a, name):
+    return name in a.sexpr()
+
+
+def _mentions_term(a, t):
+    return str(t) in a.sexpr() or t.sexpr() in a.sexpr()
 
 
 def _frozen_entry(E, b):
@@ -214,7 +248,8 @@ contract(
     modifies=['is_burst'],
     result=_same_array_havoc('is_burst'),
     proof={('after_assign', 'transitions'): _after_transitions, ('before_return',): _before_return},
-    loops={1: dict(index='q', invariant=[
+    ensures_using=['post'],
+    loops={1: dict(index='q', using=['selected-bounds'], invariant=[
         "len(is_burst) == len(old(is_burst))",
         # cleared so far: exactly the positions inside one of the first q too-short runs
         "forall(j, 0 <= j < len(is_burst), is_burst[j] == (old(is_burst)[j] and "
